@@ -4,6 +4,8 @@
 //! A case line is an abstract dump model (compact text, see `Model::parse`):
 //!   roundtrip fl=<flags> pad=<0|1> T=<threads> M=<modules> R=<regions> I=<meminfo> N=<thread names>
 //!             U=<unloaded> X=<exception|-> S=<system info|-> D=<extra raw streams>
+//!             [Y=<misc info|->] [H=<handle data|->] [L=<Linux maps|->] [C=<Crashpad info|->]
+//!             (optional trailing fields: absent = the model has no such stream)
 //!
 //! `exec` serializes the model with **minidump-synth** (a foreign serializer: directory last, data
 //! interleaved with the streams) in {LE, BE} x {MemoryList, Memory64List}, reads each dump with the
@@ -141,6 +143,833 @@ struct Sys {
     csd: Vec<u32>,
 }
 
+/// `MINIDUMP_MISC_INFO*`: revision 1..5, every scalar of that revision in declaration order, and
+/// bytes that follow the struct inside the stream
+#[derive(Clone, Debug, PartialEq)]
+struct Misc {
+    ver: u8,
+    tail: Blob,
+    vals: Vec<u64>,
+}
+
+/// field widths of MINIDUMP_MISC_INFO_5, flattened, written from the documented struct
+/// (minidumpapiset.h): 15 u32; TIME_ZONE_INFORMATION = LONG, WCHAR[32], SYSTEMTIME (8 WORD), LONG,
+/// WCHAR[32], SYSTEMTIME, LONG; WCHAR[260]; WCHAR[40]; XSTATE_CONFIG_FEATURE_MSC_INFO = ULONG, ULONG,
+/// ULONG64, XSTATE_FEATURE[64] (ULONG, ULONG); ULONG
+fn misc_widths() -> Vec<usize> {
+    let mut w = vec![4usize; 15];
+    for _ in 0..2 {
+        w.push(4);
+        w.extend(std::iter::repeat(2).take(32 + 8));
+    }
+    w.push(4);
+    w.extend(std::iter::repeat(2).take(260 + 40));
+    w.extend([4, 4, 8]);
+    w.extend(std::iter::repeat(4).take(128));
+    w.push(4);
+    w
+}
+/// number of scalars in revision 1..5
+const MISC_COUNTS: [usize; 5] = [6, 11, 98, 398, 530];
+/// wire size of revision 1..5
+const MISC_SIZES: [usize; 5] = [24, 44, 232, 832, 1364];
+
+/// (accessor, first revision, guarding Flags1 bit, first scalar, number of scalars) — the documented
+/// validity rules of MINIDUMP_MISC_INFO_N
+const MISC_FIELDS: [(&str, u8, u32, usize, usize); 20] = [
+    ("size_of_info", 1, 0, 0, 1),
+    ("flags1", 1, 0, 1, 1),
+    ("process_id", 1, 0x1, 2, 1),
+    ("process_create_time", 1, 0x2, 3, 1),
+    ("process_user_time", 1, 0x2, 4, 1),
+    ("process_kernel_time", 1, 0x2, 5, 1),
+    ("processor_max_mhz", 2, 0x4, 6, 1),
+    ("processor_current_mhz", 2, 0x4, 7, 1),
+    ("processor_mhz_limit", 2, 0x4, 8, 1),
+    ("processor_max_idle_state", 2, 0x4, 9, 1),
+    ("processor_current_idle_state", 2, 0x4, 10, 1),
+    ("process_integrity_level", 3, 0x10, 11, 1),
+    ("process_execute_flags", 3, 0x20, 12, 1),
+    ("protected_process", 3, 0x80, 13, 1),
+    ("time_zone_id", 3, 0x40, 14, 1),
+    ("time_zone", 3, 0x40, 15, 83),
+    ("build_string", 4, 0x100, 98, 260),
+    ("dbg_bld_str", 4, 0x100, 358, 40),
+    ("xstate_data", 5, 0, 398, 131),
+    ("process_cookie", 5, 0x200, 529, 1),
+];
+
+/// numbers separated by '.', `z<n>` = n zeros
+fn nums_z(s: &str) -> Option<Vec<u64>> {
+    let mut v = Vec::new();
+    if s.is_empty() {
+        return Some(v);
+    }
+    for t in s.split('.') {
+        if let Some(n) = t.strip_prefix('z') {
+            let n: usize = n.parse().ok()?;
+            if n > 4096 {
+                return None;
+            }
+            v.extend(std::iter::repeat(0).take(n));
+        } else {
+            v.push(t.parse().ok()?);
+        }
+    }
+    Some(v)
+}
+fn dotted_z(xs: &[u64]) -> String {
+    let mut out: Vec<String> = Vec::new();
+    let mut i = 0;
+    while i < xs.len() {
+        if xs[i] == 0 {
+            let mut j = i;
+            while j < xs.len() && xs[j] == 0 {
+                j += 1;
+            }
+            if j - i >= 3 {
+                out.push(format!("z{}", j - i));
+                i = j;
+                continue;
+            }
+        }
+        out.push(xs[i].to_string());
+        i += 1;
+    }
+    out.join(".")
+}
+
+impl Misc {
+    fn text(&self) -> String {
+        format!("{},{},{}", self.ver, self.tail.text, dotted_z(&self.vals))
+    }
+    fn parse(s: &str) -> Option<Option<Misc>> {
+        if s == "-" {
+            return Some(None);
+        }
+        let p: Vec<&str> = s.split(',').collect();
+        match p.as_slice() {
+            [ver, tail, vals] => {
+                let ver: u8 = ver.parse().ok()?;
+                let vals = nums_z(vals)?;
+                let w = misc_widths();
+                // the harness only builds models the wire format can carry
+                if !(1..=5).contains(&ver) || vals.len() != MISC_COUNTS[ver as usize - 1] {
+                    return None;
+                }
+                if vals.iter().zip(w.iter()).any(|(v, w)| *w < 8 && *v >> (8 * *w) != 0) {
+                    return None;
+                }
+                let tail = Blob::parse(tail)?;
+                if ver < 5 && MISC_SIZES[ver as usize - 1] + tail.data.len() >= MISC_SIZES[ver as usize] {
+                    return None;
+                }
+                Some(Some(Misc { ver, tail, vals }))
+            }
+            _ => None,
+        }
+    }
+    /// the stream bytes, written field by field
+    fn bytes(&self, be: bool) -> Vec<u8> {
+        let mut out = Vec::new();
+        for (v, w) in self.vals.iter().zip(misc_widths()) {
+            let le = v.to_le_bytes();
+            if be {
+                out.extend(le[..w].iter().rev());
+            } else {
+                out.extend(&le[..w]);
+            }
+        }
+        out.extend(&self.tail.data);
+        out
+    }
+    /// The same model through minidump-synth's `MiscStream` — possible when the model is what that
+    /// writer can express (flags consistent with the revision, unguarded fields zero, size_of_info =
+    /// the stream length, zero padding); `None` otherwise.
+    fn synth_bytes(&self, be: bool) -> Option<Vec<u8>> {
+        let v = &self.vals;
+        let fl = v[1] as u32;
+        let g = |i: usize| v.get(i).copied().unwrap_or(0);
+        let mut s = synth::MiscStream::new(tend(be));
+        if fl & 1 != 0 {
+            s.process_id = Some(g(2) as u32);
+        }
+        if fl & 2 != 0 {
+            s.process_times = Some(synth::MiscFieldsProcessTimes {
+                process_create_time: g(3) as u32,
+                process_user_time: g(4) as u32,
+                process_kernel_time: g(5) as u32,
+            });
+        }
+        if fl & 4 != 0 {
+            s.power_info = Some(synth::MiscFieldsPowerInfo {
+                processor_max_mhz: g(6) as u32,
+                processor_current_mhz: g(7) as u32,
+                processor_mhz_limit: g(8) as u32,
+                processor_max_idle_state: g(9) as u32,
+                processor_current_idle_state: g(10) as u32,
+            });
+        }
+        if fl & 0x10 != 0 {
+            s.process_integrity_level = Some(g(11) as u32);
+        }
+        if fl & 0x20 != 0 {
+            s.process_execute_flags = Some(g(12) as u32);
+        }
+        if fl & 0x80 != 0 {
+            s.protected_process = Some(g(13) as u32);
+        }
+        if fl & 0x40 != 0 {
+            let name = |at: usize| -> [u16; 32] { std::array::from_fn(|i| g(at + i) as u16) };
+            let date = |at: usize| md::SYSTEMTIME {
+                year: g(at) as u16,
+                month: g(at + 1) as u16,
+                day_of_week: g(at + 2) as u16,
+                day: g(at + 3) as u16,
+                hour: g(at + 4) as u16,
+                minute: g(at + 5) as u16,
+                second: g(at + 6) as u16,
+                milliseconds: g(at + 7) as u16,
+            };
+            s.time_zone = Some(synth::MiscFieldsTimeZone {
+                time_zone_id: g(14) as u32,
+                time_zone: md::TIME_ZONE_INFORMATION {
+                    bias: g(15) as u32 as i32,
+                    standard_name: name(16),
+                    standard_date: date(48),
+                    standard_bias: g(56) as u32 as i32,
+                    daylight_name: name(57),
+                    daylight_date: date(89),
+                    daylight_bias: g(97) as u32 as i32,
+                },
+            });
+        }
+        if fl & 0x100 != 0 {
+            s.build_strings = Some(synth::MiscFieldsBuildString {
+                build_string: std::array::from_fn(|i| g(98 + i) as u16),
+                dbg_bld_str: std::array::from_fn(|i| g(358 + i) as u16),
+            });
+        }
+        if self.ver == 5 {
+            s.misc_5 = Some(synth::MiscInfo5Fields {
+                xstate_data: md::XSTATE_CONFIG_FEATURE_MSC_INFO {
+                    size_of_info: g(398) as u32,
+                    context_size: g(399) as u32,
+                    enabled_features: g(400),
+                    features: std::array::from_fn(|i| md::XSTATE_FEATURE { offset: g(401 + 2 * i) as u32, size: g(402 + 2 * i) as u32 }),
+                },
+                process_cookie: if fl & 0x200 != 0 { Some(g(529) as u32) } else { None },
+            });
+        }
+        s.pad_to_size = Some(MISC_SIZES[self.ver as usize - 1] + self.tail.data.len());
+        let got = catch(|| Section::from(s).get_contents()).ok().flatten()?;
+        (got == self.bytes(be)).then_some(got)
+    }
+}
+
+/// one handle descriptor; `infos` = the object-information chain (info_type, size_of_info), which
+/// only the second kind of descriptor carries
+#[derive(Clone, Debug, PartialEq)]
+struct Handle {
+    handle: u64,
+    type_name: Option<Vec<u32>>,
+    object_name: Option<Vec<u32>>,
+    attributes: u32,
+    access: u32,
+    hcount: u32,
+    pcount: u32,
+    infos: Vec<(u32, u32)>,
+}
+
+#[derive(Clone, Debug, PartialEq)]
+struct Handles {
+    v2: bool,
+    items: Vec<Handle>,
+}
+
+fn opt_name_text(n: &Option<Vec<u32>>) -> String {
+    match n {
+        None => "~".into(),
+        Some(n) => name_text(n),
+    }
+}
+fn parse_opt_name(s: &str) -> Option<Option<Vec<u32>>> {
+    if s == "~" {
+        Some(None)
+    } else {
+        parse_name(s).map(Some)
+    }
+}
+
+impl Handles {
+    fn text(&self) -> String {
+        let items: Vec<String> = self
+            .items
+            .iter()
+            .map(|h| {
+                let infos: Vec<String> = h.infos.iter().map(|(t, s)| format!("{t}:{s}")).collect();
+                format!(
+                    "{},{},{},{},{},{},{},{}",
+                    h.handle,
+                    opt_name_text(&h.type_name),
+                    opt_name_text(&h.object_name),
+                    h.attributes,
+                    h.access,
+                    h.hcount,
+                    h.pcount,
+                    infos.join("/")
+                )
+            })
+            .collect();
+        format!("{}|{}", if self.v2 { 2 } else { 1 }, items.join(";"))
+    }
+    fn parse(s: &str) -> Option<Option<Handles>> {
+        if s == "-" {
+            return Some(None);
+        }
+        let (v, rest) = s.split_once('|')?;
+        let v2 = match v {
+            "1" => false,
+            "2" => true,
+            _ => return None,
+        };
+        let items = list(rest, |p| match p {
+            [h, tn, on, at, ga, hc, pc, infos] => Some(Handle {
+                handle: h.parse().ok()?,
+                type_name: parse_opt_name(tn)?,
+                object_name: parse_opt_name(on)?,
+                attributes: at.parse().ok()?,
+                access: ga.parse().ok()?,
+                hcount: hc.parse().ok()?,
+                pcount: pc.parse().ok()?,
+                infos: if infos.is_empty() {
+                    vec![]
+                } else {
+                    infos
+                        .split('/')
+                        .map(|t| {
+                            let (a, b) = t.split_once(':')?;
+                            Some((a.parse().ok()?, b.parse().ok()?))
+                        })
+                        .collect::<Option<Vec<_>>>()?
+                },
+            }),
+            _ => None,
+        })?;
+        Some(Some(Handles { v2, items }))
+    }
+}
+
+/// the path column of a `/proc/<pid>/maps` line
+#[derive(Clone, Debug, PartialEq)]
+enum MapPath {
+    Path(Vec<u8>),
+    Heap,
+    Stack,
+    TStack(u32),
+    Vdso,
+    Vvar,
+    Vsyscall,
+    Rollup,
+    Anonymous,
+    Vsys(u32),
+    Other(Vec<u8>),
+}
+
+#[derive(Clone, Debug, PartialEq)]
+struct MapEntry {
+    lo: u64,
+    hi: u64,
+    /// READ 1, WRITE 2, EXECUTE 4, SHARED 8, PRIVATE 16
+    perms: u8,
+    offset: u64,
+    major: u32,
+    minor: u32,
+    inode: u64,
+    path: MapPath,
+}
+
+impl MapPath {
+    fn text(&self) -> String {
+        match self {
+            MapPath::Path(p) => format!("p{}", hex(p)),
+            MapPath::Heap => "h".into(),
+            MapPath::Stack => "s".into(),
+            MapPath::TStack(t) => format!("t{t}"),
+            MapPath::Vdso => "d".into(),
+            MapPath::Vvar => "v".into(),
+            MapPath::Vsyscall => "y".into(),
+            MapPath::Rollup => "r".into(),
+            MapPath::Anonymous => "a".into(),
+            MapPath::Vsys(k) => format!("k{k}"),
+            MapPath::Other(o) => format!("o{}", hex(o)),
+        }
+    }
+    fn parse(s: &str) -> Option<MapPath> {
+        Some(match s {
+            "h" => MapPath::Heap,
+            "s" => MapPath::Stack,
+            "d" => MapPath::Vdso,
+            "v" => MapPath::Vvar,
+            "y" => MapPath::Vsyscall,
+            "r" => MapPath::Rollup,
+            "a" => MapPath::Anonymous,
+            _ => {
+                let (k, rest) = s.split_at(1);
+                match k {
+                    "t" => MapPath::TStack(rest.parse().ok()?),
+                    "k" => MapPath::Vsys(rest.parse().ok()?),
+                    "o" => MapPath::Other(unhex(rest)?),
+                    "p" => MapPath::Path(unhex(rest)?),
+                    _ => return None,
+                }
+            }
+        })
+    }
+    /// the column as a writer of `/proc/<pid>/maps` spells it
+    fn column(&self) -> Vec<u8> {
+        match self {
+            MapPath::Path(p) => p.clone(),
+            MapPath::Heap => b"[heap]".to_vec(),
+            MapPath::Stack => b"[stack]".to_vec(),
+            MapPath::TStack(t) => format!("[stack:{t}]").into_bytes(),
+            MapPath::Vdso => b"[vdso]".to_vec(),
+            MapPath::Vvar => b"[vvar]".to_vec(),
+            MapPath::Vsyscall => b"[vsyscall]".to_vec(),
+            MapPath::Rollup => b"[rollup]".to_vec(),
+            MapPath::Anonymous => vec![],
+            MapPath::Vsys(k) => format!("/SYSV{k:08x}").into_bytes(),
+            MapPath::Other(o) => [b"[".as_slice(), o, b"]"].concat(),
+        }
+    }
+    /// is the column spelled unambiguously (a file path that does not look like a pseudo-path, no white
+    /// space at either end, no line break, UTF-8)?
+    fn well_formed(&self) -> bool {
+        let col = self.column();
+        if col.contains(&b'\n') || std::str::from_utf8(&col).is_err() {
+            return false;
+        }
+        let fixed: [&[u8]; 6] = [b"[heap]", b"[stack]", b"[vdso]", b"[vvar]", b"[vsyscall]", b"[rollup]"];
+        match self {
+            MapPath::Path(p) => {
+                let printable = |c: u8| (0x21..=0x7e).contains(&c);
+                !p.is_empty()
+                    && printable(p[0])
+                    && printable(*p.last().unwrap())
+                    && !fixed.contains(&&p[..])
+                    && !p.starts_with(b"[stack:")
+                    && !(p[0] == b'[' && *p.last().unwrap() == b']')
+                    && !p.starts_with(b"/SYSV")
+            }
+            MapPath::Other(_) => !fixed.contains(&&col[..]) && !col.starts_with(b"[stack:"),
+            _ => true,
+        }
+    }
+}
+
+fn maps_text(ms: &[MapEntry]) -> String {
+    let items: Vec<String> = ms
+        .iter()
+        .map(|x| format!("{},{},{},{},{},{},{},{}", x.lo, x.hi, x.perms, x.offset, x.major, x.minor, x.inode, x.path.text()))
+        .collect();
+    format!("[{}]", items.join(";"))
+}
+fn parse_maps(s: &str) -> Option<Option<Vec<MapEntry>>> {
+    if s == "-" {
+        return Some(None);
+    }
+    let inner = s.strip_prefix('[')?.strip_suffix(']')?;
+    let v = list(inner, |p| match p {
+        [lo, hi, perms, off, maj, min, ino, path] => {
+            let e = MapEntry {
+                lo: lo.parse().ok()?,
+                hi: hi.parse().ok()?,
+                perms: perms.parse().ok().filter(|p| *p < 32)?,
+                offset: off.parse().ok()?,
+                major: maj.parse().ok().filter(|v| *v < 1 << 31)?,
+                minor: min.parse().ok().filter(|v| *v < 1 << 31)?,
+                inode: ino.parse().ok()?,
+                path: MapPath::parse(path)?,
+            };
+            e.path.well_formed().then_some(e)
+        }
+        _ => None,
+    })?;
+    Some(Some(v))
+}
+
+fn perms_text(p: u8) -> String {
+    let mut s = String::new();
+    s.push(if p & 1 != 0 { 'r' } else { '-' });
+    s.push(if p & 2 != 0 { 'w' } else { '-' });
+    s.push(if p & 4 != 0 { 'x' } else { '-' });
+    if p & 8 != 0 {
+        s.push('s');
+    }
+    if p & 16 != 0 {
+        s.push('p');
+    }
+    if p & 24 == 0 {
+        s.push('-');
+    }
+    s
+}
+
+/// The maps text as a FOREIGN writer produces it — the kernel's `%08lx-%08lx %c%c%c%c %08llx %02x:%02x %lu `
+/// with the path padded to column 73 — varied per line (deterministically from the entry) within what
+/// the format allows: upper-case hex, an explicit `+`, leading zeros, other padding, CRLF, a missing
+/// final newline.
+fn foreign_maps(ms: &[MapEntry]) -> Vec<u8> {
+    let mut out = Vec::new();
+    for (i, x) in ms.iter().enumerate() {
+        let style = fnv64(format!("{i}:{}:{}:{}", x.lo, x.hi, x.inode).as_bytes());
+        let hexn = |v: u64, width: usize, k: u64| -> String {
+            // (a line that BEGINS with an upper-case letter is an smaps attribute to the parser: the first
+            // field keeps the kernel's lower case and has no sign)
+            match (style >> k) & 3 {
+                0 => format!("{:0w$x}", v, w = width),
+                1 => format!("{:x}", v),
+                2 if k != 0 => format!("{:0w$X}", v, w = width),
+                3 if k != 0 => format!("+{:x}", v),
+                _ => format!("{:0w$x}", v, w = 2 * width),
+            }
+        };
+        let mut line = format!(
+            "{}-{} {} {} {}:{} {}{} ",
+            hexn(x.lo, 8, 0),
+            hexn(x.hi, 8, 2),
+            perms_text(x.perms),
+            hexn(x.offset, 8, 4),
+            hexn(x.major as u64, 2, 6),
+            hexn(x.minor as u64, 2, 8),
+            if (style >> 10) & 3 == 0 { "+" } else { "" },
+            x.inode
+        )
+        .into_bytes();
+        let col = x.path.column();
+        if !col.is_empty() {
+            match (style >> 12) & 3 {
+                0 => {
+                    while line.len() < 73 {
+                        line.push(b' ');
+                    }
+                }
+                1 => line.extend(b"\t  "),
+                _ => {}
+            }
+        }
+        line.extend(&col);
+        if (style >> 14) & 3 == 0 && !col.is_empty() {
+            line.extend(b"  ");
+        }
+        out.extend(line);
+        let last = i + 1 == ms.len();
+        match (style >> 16) & 7 {
+            0 => out.extend(b"\r\n"),
+            1 if last => {}
+            _ => out.push(b'\n'),
+        }
+    }
+    out
+}
+
+/// a Crashpad annotation object
+#[derive(Clone, Debug, PartialEq)]
+enum Ann {
+    Invalid(Vec<u8>),
+    Str(Vec<u8>, Vec<u8>),
+    /// any type but TYPE_INVALID / TYPE_STRING: (name, type, value word)
+    Other(Vec<u8>, u16, u32),
+}
+
+#[derive(Clone, Debug, PartialEq)]
+struct CpModule {
+    index: u32,
+    version: u32,
+    list: Vec<Vec<u8>>,
+    dict: Vec<(Vec<u8>, Vec<u8>)>,
+    anns: Vec<Ann>,
+}
+
+#[derive(Clone, Debug, PartialEq)]
+struct Crashpad {
+    version: u32,
+    report_id: [u32; 11],
+    client_id: [u32; 11],
+    dict: Vec<(Vec<u8>, Vec<u8>)>,
+    modules: Vec<CpModule>,
+}
+
+fn xs(b: &[u8]) -> String {
+    format!("x{}", hex(b))
+}
+fn unx(s: &str) -> Option<Vec<u8>> {
+    // strings are UTF-8 (the wire format's MINIDUMP_UTF8_STRING)
+    unhex(s.strip_prefix('x')?).filter(|b| std::str::from_utf8(b).is_ok())
+}
+fn sep_list<T>(s: &str, sep: char, f: impl Fn(&str) -> Option<T>) -> Option<Vec<T>> {
+    if s.is_empty() {
+        return Some(vec![]);
+    }
+    s.split(sep).map(f).collect()
+}
+fn kvs_text(d: &[(Vec<u8>, Vec<u8>)]) -> String {
+    d.iter().map(|(k, v)| format!("{}:{}", xs(k), xs(v))).collect::<Vec<_>>().join("/")
+}
+fn parse_kv(s: &str) -> Option<(Vec<u8>, Vec<u8>)> {
+    let (k, v) = s.split_once(':')?;
+    Some((unx(k)?, unx(v)?))
+}
+
+impl Ann {
+    fn name(&self) -> &[u8] {
+        match self {
+            Ann::Invalid(n) | Ann::Str(n, _) | Ann::Other(n, _, _) => n,
+        }
+    }
+    fn text(&self) -> String {
+        match self {
+            Ann::Invalid(n) => format!("i:{}", xs(n)),
+            Ann::Str(n, v) => format!("s:{}:{}", xs(n), xs(v)),
+            Ann::Other(n, ty, v) => format!("o:{}:{}:{}", xs(n), ty, v),
+        }
+    }
+    fn parse(s: &str) -> Option<Ann> {
+        let p: Vec<&str> = s.split(':').collect();
+        Some(match p.as_slice() {
+            ["i", n] => Ann::Invalid(unx(n)?),
+            ["s", n, v] => Ann::Str(unx(n)?, unx(v)?),
+            ["o", n, ty, v] => Ann::Other(unx(n)?, ty.parse().ok().filter(|t| *t > 1)?, v.parse().ok()?),
+            _ => return None,
+        })
+    }
+}
+
+impl Crashpad {
+    fn text(&self) -> String {
+        let ms: Vec<String> = self
+            .modules
+            .iter()
+            .map(|m| {
+                format!(
+                    "{}!{}!{}!{}!{}",
+                    m.index,
+                    m.version,
+                    m.list.iter().map(|s| xs(s)).collect::<Vec<_>>().join("/"),
+                    kvs_text(&m.dict),
+                    m.anns.iter().map(|a| a.text()).collect::<Vec<_>>().join("/")
+                )
+            })
+            .collect();
+        format!("{},{},{},{},{}", self.version, dotted(&self.report_id), dotted(&self.client_id), kvs_text(&self.dict), ms.join("+"))
+    }
+    fn parse(s: &str) -> Option<Option<Crashpad>> {
+        if s == "-" {
+            return Some(None);
+        }
+        let p: Vec<&str> = s.split(',').collect();
+        let [ver, rid, cid, d, ms] = p.as_slice() else { return None };
+        let guid = |t: &str| -> Option<[u32; 11]> {
+            let v: [u32; 11] = nums::<u32>(t, '.')?.try_into().ok()?;
+            (v[1] < 1 << 16 && v[2] < 1 << 16 && v[3..].iter().all(|b| *b < 256)).then_some(v)
+        };
+        let modules = sep_list(ms, '+', |t| {
+            let q: Vec<&str> = t.split('!').collect();
+            let [idx, ver, l, d, a] = q.as_slice() else { return None };
+            Some(CpModule {
+                index: idx.parse().ok()?,
+                version: ver.parse().ok()?,
+                list: sep_list(l, '/', unx)?,
+                dict: sep_list(d, '/', parse_kv)?,
+                anns: sep_list(a, '/', Ann::parse)?,
+            })
+        })?;
+        Some(Some(Crashpad {
+            version: ver.parse().ok().filter(|v| *v != 0)?,
+            report_id: guid(rid)?,
+            client_id: guid(cid)?,
+            dict: sep_list(d, '/', parse_kv)?,
+            modules,
+        }))
+    }
+
+    /// through minidump-synth's CrashpadInfo — when the model is what that writer can express
+    /// (both versions 1, no annotation object of a custom type)
+    fn synth_stream(&self, e: TEndian) -> Option<synth::CrashpadInfo> {
+        if self.version != 1 || self.modules.iter().any(|m| m.version != 1 || m.anns.iter().any(|a| matches!(a, Ann::Other(..)))) {
+            return None;
+        }
+        let st = |b: &[u8]| String::from_utf8(b.to_vec()).ok();
+        let guid = |g: &[u32; 11]| md::GUID { data1: g[0], data2: g[1] as u16, data3: g[2] as u16, data4: std::array::from_fn(|i| g[3 + i] as u8) };
+        let mut c = synth::CrashpadInfo::new(e).report_id(guid(&self.report_id)).client_id(guid(&self.client_id));
+        for (k, v) in &self.dict {
+            c = c.add_simple_annotation(&st(k)?, &st(v)?);
+        }
+        for m in &self.modules {
+            let mut sm = synth::ModuleCrashpadInfo::new(m.index, e);
+            for l in &m.list {
+                sm = sm.add_list_annotation(&st(l)?);
+            }
+            for (k, v) in &m.dict {
+                sm = sm.add_simple_annotation(&st(k)?, &st(v)?);
+            }
+            for a in &m.anns {
+                sm = match a {
+                    Ann::Invalid(n) => sm.add_annotation_object(&st(n)?, synth::AnnotationValue::Invalid),
+                    Ann::Str(n, v) => sm.add_annotation_object(&st(n)?, synth::AnnotationValue::String(st(v)?)),
+                    Ann::Other(..) => return None,
+                };
+            }
+            c = c.add_module(sm);
+        }
+        Some(c)
+    }
+
+    /// Written by hand, in a layout of its own: record | link table | per module: info record, its three
+    /// tables | dictionary table | the string pool LAST, strings in reverse order of use. Offsets are
+    /// relative to the stream's start; `fix` lists the positions of the RVA words.
+    fn manual_image(&self, be: bool) -> (Vec<u8>, Vec<usize>) {
+        struct Img {
+            be: bool,
+            b: Vec<u8>,
+            fix: Vec<usize>,
+            // (position of the RVA word, string bytes, NUL-terminated?)
+            strs: Vec<(usize, Vec<u8>, bool)>,
+        }
+        impl Img {
+            fn u16(&mut self, v: u16) {
+                if self.be { self.b.extend(v.to_be_bytes()) } else { self.b.extend(v.to_le_bytes()) }
+            }
+            fn u32(&mut self, v: u32) {
+                if self.be { self.b.extend(v.to_be_bytes()) } else { self.b.extend(v.to_le_bytes()) }
+            }
+            fn set32(&mut self, at: usize, v: u32) {
+                let w = if self.be { v.to_be_bytes() } else { v.to_le_bytes() };
+                self.b[at..at + 4].copy_from_slice(&w);
+            }
+            /// an RVA word to be pointed at `target` later
+            fn rva_slot(&mut self) -> usize {
+                let at = self.b.len();
+                self.fix.push(at);
+                self.u32(0);
+                at
+            }
+            fn str_ref(&mut self, s: &[u8], nul: bool) {
+                let at = self.rva_slot();
+                self.strs.push((at, s.to_vec(), nul));
+            }
+            fn dict(&mut self, d: &[(Vec<u8>, Vec<u8>)]) {
+                self.u32(d.len() as u32);
+                for (k, v) in d {
+                    self.str_ref(k, true);
+                    self.str_ref(v, true);
+                }
+            }
+        }
+        let mut g = Img { be, b: Vec::new(), fix: Vec::new(), strs: Vec::new() };
+        g.u32(self.version);
+        for id in [&self.report_id, &self.client_id] {
+            g.u32(id[0]);
+            g.u16(id[1] as u16);
+            g.u16(id[2] as u16);
+            for v in &id[3..] {
+                g.b.push(*v as u8);
+            }
+        }
+        g.u32(4 + 8 * self.dict.len() as u32);
+        let dict_slot = g.rva_slot();
+        g.u32(4 + 12 * self.modules.len() as u32);
+        let list_slot = g.rva_slot();
+        // the link table
+        let here = g.b.len() as u32;
+        g.set32(list_slot, here);
+        g.u32(self.modules.len() as u32);
+        let mut link_slots = Vec::new();
+        for m in &self.modules {
+            g.u32(m.index);
+            g.u32(28);
+            link_slots.push(g.rva_slot());
+        }
+        for (m, slot) in self.modules.iter().zip(link_slots) {
+            let here = g.b.len() as u32;
+            g.set32(slot, here);
+            g.u32(m.version);
+            g.u32(4 + 4 * m.list.len() as u32);
+            let l = g.rva_slot();
+            g.u32(4 + 8 * m.dict.len() as u32);
+            let d = g.rva_slot();
+            g.u32(4 + 12 * m.anns.len() as u32);
+            let a = g.rva_slot();
+            // annotation objects first, then the dictionary, then the string list
+            let here = g.b.len() as u32;
+            g.set32(a, here);
+            g.u32(m.anns.len() as u32);
+            for an in &m.anns {
+                g.str_ref(an.name(), true);
+                match an {
+                    Ann::Invalid(_) => {
+                        g.u16(0);
+                        g.u16(0);
+                        g.u32(0);
+                    }
+                    Ann::Str(_, v) => {
+                        g.u16(1);
+                        g.u16(0);
+                        g.str_ref(v, false);
+                    }
+                    Ann::Other(_, ty, v) => {
+                        g.u16(*ty);
+                        g.u16(0);
+                        g.u32(*v);
+                    }
+                }
+            }
+            let here = g.b.len() as u32;
+            g.set32(d, here);
+            g.dict(&m.dict);
+            let here = g.b.len() as u32;
+            g.set32(l, here);
+            g.u32(m.list.len() as u32);
+            for s in &m.list {
+                g.str_ref(s, true);
+            }
+        }
+        let here = g.b.len() as u32;
+        g.set32(dict_slot, here);
+        g.dict(&self.dict);
+        // the string pool
+        let strs = std::mem::take(&mut g.strs);
+        for (at, s, nul) in strs.into_iter().rev() {
+            let here = g.b.len() as u32;
+            g.set32(at, here);
+            g.u32(s.len() as u32);
+            g.b.extend(&s);
+            if nul {
+                g.b.push(0);
+            }
+        }
+        (g.b, g.fix)
+    }
+
+    /// the hand-written image as a section whose RVA words are labels relative to the stream's start
+    fn manual_section(&self, be: bool) -> Section {
+        let (img, mut fix) = self.manual_image(be);
+        fix.sort_unstable();
+        let e = tend(be);
+        let mut sec = Section::with_endian(e);
+        let start = sec.start();
+        let mut i = 0;
+        for at in fix {
+            sec = sec.append_bytes(&img[i..at]);
+            let w: [u8; 4] = img[at..at + 4].try_into().unwrap();
+            let rel = if be { u32::from_be_bytes(w) } else { u32::from_le_bytes(w) };
+            sec = sec.D32(&(&start + rel as i64));
+            i = at + 4;
+        }
+        sec.append_bytes(&img[i..])
+    }
+}
+
 #[derive(Clone, Debug, PartialEq, Default)]
 struct Model {
     flags: u64,
@@ -155,6 +984,10 @@ struct Model {
     exc: Option<Exc>,
     sys: Option<Sys>,
     extra: Vec<(u32, Blob)>,
+    misc: Option<Misc>,
+    handles: Option<Handles>,
+    maps: Option<Vec<MapEntry>>,
+    crashpad: Option<Crashpad>,
 }
 
 fn name_text(cs: &[u32]) -> String {
@@ -273,8 +1106,12 @@ impl Model {
             ),
         };
         let d: Vec<String> = self.extra.iter().map(|(ty, b)| format!("{},{}", ty, b.text)).collect();
+        let y = self.misc.as_ref().map(|y| y.text()).unwrap_or("-".into());
+        let h = self.handles.as_ref().map(|h| h.text()).unwrap_or("-".into());
+        let l = self.maps.as_ref().map(|l| maps_text(l)).unwrap_or("-".into());
+        let c = self.crashpad.as_ref().map(|c| c.text()).unwrap_or("-".into());
         format!(
-            "roundtrip fl={} pad={} T={} M={} R={} I={} N={} U={} X={} S={} D={}",
+            "roundtrip fl={} pad={} T={} M={} R={} I={} N={} U={} X={} S={} D={} Y={} H={} L={} C={}",
             self.flags,
             self.pad as u8,
             t.join(";"),
@@ -285,13 +1122,17 @@ impl Model {
             u.join(";"),
             x,
             s,
-            d.join(";")
+            d.join(";"),
+            y,
+            h,
+            l,
+            c
         )
     }
 
     fn parse(case: &str) -> Option<Model> {
         let f: Vec<&str> = case.split(' ').collect();
-        if f.len() != 12 || f[0] != "roundtrip" {
+        if f.len() < 12 || f[0] != "roundtrip" {
             return None;
         }
         let mut m = Model { flags: f[1].strip_prefix("fl=")?.parse().ok()?, ..Default::default() };
@@ -397,6 +1238,20 @@ impl Model {
             [ty, b] => Some((ty.parse().ok()?, Blob::parse(b)?)),
             _ => None,
         })?;
+        // the optional streams
+        for t in &f[12..] {
+            if let Some(y) = t.strip_prefix("Y=") {
+                m.misc = Misc::parse(y)?;
+            } else if let Some(h) = t.strip_prefix("H=") {
+                m.handles = Handles::parse(h)?;
+            } else if let Some(l) = t.strip_prefix("L=") {
+                m.maps = parse_maps(l)?;
+            } else if let Some(c) = t.strip_prefix("C=") {
+                m.crashpad = Crashpad::parse(c)?;
+            } else {
+                return None;
+            }
+        }
         Some(m)
     }
 }
@@ -626,6 +1481,90 @@ fn build_synth(m: &Model, be: bool, mem64: bool) -> Option<Vec<u8>> {
             section: Section::with_endian(e).D32(12).D32(24).D32(0),
         });
     }
+    // handle data: descriptors of the first kind through synth's HandleDescriptor (ExList stream with a
+    // 16-byte header); the second kind (and an empty list) by hand: 40-byte descriptors citing the
+    // names and the first element of the object-information chain, each element citing the next
+    if let Some(hd) = &m.handles {
+        let mut entries: Vec<Section> = Vec::new();
+        for h in &hd.items {
+            let tn = h.type_name.as_ref().map(|n| synth::DumpString::new(&name_string(n), e));
+            let on = h.object_name.as_ref().map(|n| synth::DumpString::new(&name_string(n), e));
+            if !hd.v2 {
+                let desc = synth::HandleDescriptor::new(e, h.handle, tn.as_ref(), on.as_ref(), h.attributes, h.access, h.hcount, h.pcount);
+                d = d.add_handle_descriptor(desc);
+            } else {
+                // the chain, last element first so that each can cite its successor
+                let mut next: Option<test_assembler::Label> = None;
+                let mut secs = Vec::new();
+                for (ty, size) in h.infos.iter().rev() {
+                    let sec = Section::with_endian(e);
+                    let sec = match &next {
+                        None => sec.D32(0),
+                        Some(l) => sec.D32(l),
+                    };
+                    let sec = sec.D32(*ty).D32(*size);
+                    next = Some(synth::DumpSection::file_offset(&sec));
+                    secs.push(sec);
+                }
+                let sec = Section::with_endian(e).D64(h.handle);
+                let sec = match &tn {
+                    None => sec.D32(0),
+                    Some(t) => sec.D32(&synth::DumpSection::file_offset(t)),
+                };
+                let sec = match &on {
+                    None => sec.D32(0),
+                    Some(t) => sec.D32(&synth::DumpSection::file_offset(t)),
+                };
+                let sec = sec.D32(h.attributes).D32(h.access).D32(h.hcount).D32(h.pcount);
+                let sec = match &next {
+                    None => sec.D32(0),
+                    Some(l) => sec.D32(l),
+                };
+                entries.push(sec.D32(0));
+                // scatter the chain elements in the file in reverse order
+                for sec in secs {
+                    d = d.add(sec);
+                }
+            }
+            if let Some(t) = tn {
+                d = d.add(t);
+            }
+            if let Some(t) = on {
+                d = d.add(t);
+            }
+        }
+        if hd.v2 || hd.items.is_empty() {
+            let size: u32 = if hd.v2 { 40 } else { 32 };
+            let mut sec = Section::with_endian(e).D32(16).D32(size).D32(entries.len() as u32).D32(0);
+            for en in entries {
+                sec = sec.append_section(en);
+            }
+            d = d.add_stream(synth::SimpleStream { stream_type: md::MINIDUMP_STREAM_TYPE::HandleDataStream as u32, section: sec });
+        }
+    }
+    // Crashpad info: synth's CrashpadInfo when it can express the model (for every other such model),
+    // else the hand-written image with its own placement of tables and strings
+    if let Some(c) = &m.crashpad {
+        let pick_synth = fnv64(c.text().as_bytes()) & 1 == 0;
+        match c.synth_stream(e).filter(|_| pick_synth) {
+            Some(sc) => d = d.add_crashpad_info(sc),
+            None => {
+                d = d.add_stream(synth::SimpleStream { stream_type: md::MINIDUMP_STREAM_TYPE::CrashpadInfoStream as u32, section: c.manual_section(be) });
+            }
+        }
+    }
+    // Linux maps: text written here the way the kernel (or a sloppier writer) spells it, handed to synth
+    if let Some(ms) = &m.maps {
+        d = d.set_linux_maps(&foreign_maps(ms));
+    }
+    // misc info: through synth's MiscStream when it can express the model, else field by field
+    if let Some(y) = &m.misc {
+        let bytes = y.synth_bytes(be).unwrap_or_else(|| y.bytes(be));
+        d = d.add_stream(synth::SimpleStream {
+            stream_type: md::MINIDUMP_STREAM_TYPE::MiscInfoStream as u32,
+            section: Section::with_endian(e).append_bytes(&bytes),
+        });
+    }
     d.finish()
 }
 
@@ -698,6 +1637,77 @@ fn cv_text(cv: Option<&CodeView>, be: bool) -> String {
             format!("unk:{}:{}", sig, blob(&raw[4..]))
         }
     }
+}
+
+/// a list of numbers in a report: one number as such, several as `<count>:<fnv64 of the 8-byte LE values>`
+fn nat_list(vs: &[u64]) -> String {
+    if vs.len() == 1 {
+        return vs[0].to_string();
+    }
+    let bytes: Vec<u8> = vs.iter().flat_map(|v| v.to_le_bytes()).collect();
+    format!("{}:{}", vs.len(), fnv_hex(&bytes))
+}
+
+fn tz_vals(t: &md::TIME_ZONE_INFORMATION) -> Vec<u64> {
+    let date = |d: &md::SYSTEMTIME| [d.year, d.month, d.day_of_week, d.day, d.hour, d.minute, d.second, d.milliseconds].map(|x| x as u64);
+    let mut v = vec![t.bias as u32 as u64];
+    v.extend(t.standard_name.iter().map(|x| *x as u64));
+    v.extend(date(&t.standard_date));
+    v.push(t.standard_bias as u32 as u64);
+    v.extend(t.daylight_name.iter().map(|x| *x as u64));
+    v.extend(date(&t.daylight_date));
+    v.push(t.daylight_bias as u32 as u64);
+    v
+}
+
+/// every accessor of `RawMiscInfo`, in the order of the `misc_accessors!` invocation
+fn misc_text(mi: &MinidumpMiscInfo) -> String {
+    let r = &mi.raw;
+    let ver = match r {
+        RawMiscInfo::MiscInfo(_) => 1,
+        RawMiscInfo::MiscInfo2(_) => 2,
+        RawMiscInfo::MiscInfo3(_) => 3,
+        RawMiscInfo::MiscInfo4(_) => 4,
+        RawMiscInfo::MiscInfo5(_) => 5,
+    };
+    let one = |v: Option<&u32>| v.map(|x| vec![*x as u64]);
+    let items: Vec<(&str, Option<Vec<u64>>)> = vec![
+        ("size_of_info", one(r.size_of_info())),
+        ("flags1", one(r.flags1())),
+        ("process_id", one(r.process_id())),
+        ("process_create_time", one(r.process_create_time())),
+        ("process_user_time", one(r.process_user_time())),
+        ("process_kernel_time", one(r.process_kernel_time())),
+        ("processor_max_mhz", one(r.processor_max_mhz())),
+        ("processor_current_mhz", one(r.processor_current_mhz())),
+        ("processor_mhz_limit", one(r.processor_mhz_limit())),
+        ("processor_max_idle_state", one(r.processor_max_idle_state())),
+        ("processor_current_idle_state", one(r.processor_current_idle_state())),
+        ("process_integrity_level", one(r.process_integrity_level())),
+        ("process_execute_flags", one(r.process_execute_flags())),
+        ("protected_process", one(r.protected_process())),
+        ("time_zone_id", one(r.time_zone_id())),
+        ("time_zone", r.time_zone().map(tz_vals)),
+        ("build_string", r.build_string().map(|a| a.iter().map(|x| *x as u64).collect())),
+        ("dbg_bld_str", r.dbg_bld_str().map(|a| a.iter().map(|x| *x as u64).collect())),
+        (
+            "xstate_data",
+            r.xstate_data().map(|x| {
+                let mut v = vec![x.size_of_info as u64, x.context_size as u64, x.enabled_features];
+                for f in x.features.iter() {
+                    v.push(f.offset as u64);
+                    v.push(f.size as u64);
+                }
+                v
+            }),
+        ),
+        ("process_cookie", one(r.process_cookie())),
+    ];
+    let mut out = vec![ver.to_string()];
+    for (name, v) in items {
+        out.push(format!("{}={}", name, v.map(|v| nat_list(&v)).unwrap_or("~".into())));
+    }
+    out.join(";")
 }
 
 /// the probe addresses of a region list (base, bytes-length): around both ends of every region
@@ -954,6 +1964,145 @@ fn real_report(bytes: &[u8], ids: &[u32]) -> String {
             );
         }
     }
+    // misc info
+    o.push_str(" Y=");
+    match dump.get_stream::<MinidumpMiscInfo>() {
+        Err(e) => o.push_str(&err_name(&e)),
+        Ok(mi) => o.push_str(&misc_text(&mi)),
+    }
+    // handle data
+    o.push_str(" H=");
+    match dump.get_stream::<MinidumpHandleDataStream>() {
+        Err(e) => o.push_str(&err_name(&e)),
+        Ok(hs) => {
+            let items: Vec<String> = hs
+                .iter()
+                .map(|h| {
+                    let r = &h.raw;
+                    let infos: Vec<String> = h.object_infos.iter().map(|i| format!("{}:{}", i.raw.info_type, i.raw.size_of_info)).collect();
+                    let name = |n: &Option<String>| match n {
+                        None => "~".to_string(),
+                        Some(n) => name_text(&str_scalars(n)),
+                    };
+                    format!(
+                        "{},{},{},{},{},{},{},{},{}",
+                        if r.object_info_rva().is_some() { 2 } else { 1 },
+                        r.handle().copied().unwrap_or(0),
+                        name(&h.type_name),
+                        name(&h.object_name),
+                        r.attributes().copied().unwrap_or(0),
+                        r.granted_access().copied().unwrap_or(0),
+                        r.handle_count().copied().unwrap_or(0),
+                        r.pointer_count().copied().unwrap_or(0),
+                        infos.join("/")
+                    )
+                })
+                .collect();
+            let _ = write!(o, "[{}]", items.join(";"));
+        }
+    }
+    // Linux maps
+    o.push_str(" L=");
+    match dump.get_stream::<MinidumpLinuxMaps>() {
+        Err(e) => o.push_str(&err_name(&e)),
+        Ok(maps) => {
+            use procfs_core::process::MMapPath as P;
+            use std::os::unix::ffi::OsStrExt;
+            let entries: Vec<MapEntry> = maps
+                .iter()
+                .map(|r| {
+                    let x = &r.map;
+                    MapEntry {
+                        lo: x.address.0,
+                        hi: x.address.1,
+                        perms: x.perms.bits(),
+                        offset: x.offset,
+                        major: x.dev.0 as u32,
+                        minor: x.dev.1 as u32,
+                        inode: x.inode,
+                        path: match &x.pathname {
+                            P::Path(p) => MapPath::Path(p.as_os_str().as_bytes().to_vec()),
+                            P::Heap => MapPath::Heap,
+                            P::Stack => MapPath::Stack,
+                            P::TStack(t) => MapPath::TStack(*t),
+                            P::Vdso => MapPath::Vdso,
+                            P::Vvar => MapPath::Vvar,
+                            P::Vsyscall => MapPath::Vsyscall,
+                            P::Rollup => MapPath::Rollup,
+                            P::Anonymous => MapPath::Anonymous,
+                            P::Vsys(k) => MapPath::Vsys(*k as u32),
+                            P::Other(s) => MapPath::Other(s.as_bytes().to_vec()),
+                        },
+                    }
+                })
+                .collect();
+            let mut probes = Vec::new();
+            for x in &entries {
+                let mut addrs = Vec::new();
+                if x.lo > 0 {
+                    addrs.push(x.lo - 1);
+                }
+                addrs.push(x.lo);
+                addrs.push(x.hi);
+                if x.hi < u64::MAX {
+                    addrs.push(x.hi + 1);
+                }
+                for a in addrs {
+                    // the index of the entry the lookup serves
+                    let found = maps.memory_info_at_address(a).and_then(|hit| maps.iter().position(|r| std::ptr::eq(r, hit)));
+                    probes.push(match found {
+                        None => format!("{a}:~"),
+                        Some(i) => format!("{a}:{i}"),
+                    });
+                }
+            }
+            let _ = write!(o, "{}|{}", maps_text(&entries), probes.join(","));
+        }
+    }
+    // Crashpad info
+    o.push_str(" C=");
+    match dump.get_stream::<MinidumpCrashpadInfo>() {
+        Err(e) => o.push_str(&err_name(&e)),
+        Ok(c) => {
+            let guid = |g: &md::GUID| {
+                let mut v = vec![g.data1, g.data2 as u32, g.data3 as u32];
+                v.extend(g.data4.iter().map(|b| *b as u32));
+                v
+            };
+            let mut ids = guid(&c.raw.report_id);
+            ids.extend(guid(&c.raw.client_id));
+            let kvs = |d: &std::collections::BTreeMap<String, String>| d.iter().map(|(k, v)| format!("{}:{}", xs(k.as_bytes()), xs(v.as_bytes()))).collect::<Vec<_>>().join("/");
+            let ms: Vec<String> = c
+                .module_list
+                .iter()
+                .map(|m| {
+                    let anns: Vec<String> = m
+                        .annotation_objects
+                        .iter()
+                        .map(|(k, v)| {
+                            let val = match v {
+                                MinidumpAnnotation::Invalid => "i".to_string(),
+                                MinidumpAnnotation::String(s) => format!("s:{}", xs(s.as_bytes())),
+                                MinidumpAnnotation::UserDefined(r) => format!("u:{}:{}", r.ty, r.value),
+                                MinidumpAnnotation::Unsupported(r) => format!("n:{}:{}", r.ty, r.value),
+                                _ => "?".to_string(),
+                            };
+                            format!("{}={}", xs(k.as_bytes()), val)
+                        })
+                        .collect();
+                    format!(
+                        "{}!{}!{}!{}!{}",
+                        m.module_index,
+                        m.raw.version,
+                        m.list_annotations.iter().map(|s| xs(s.as_bytes())).collect::<Vec<_>>().join("/"),
+                        kvs(&m.simple_annotations),
+                        anns.join("/")
+                    )
+                })
+                .collect();
+            let _ = write!(o, "{},{},{},{}", c.raw.version, dotted(&ids), kvs(&c.simple_annotations), ms.join("+"));
+        }
+    }
     o
 }
 
@@ -1179,6 +2328,97 @@ fn expected_report(m: &Model, be: bool, mem64: bool, as_code: bool) -> String {
             );
         }
     }
+    match &m.misc {
+        None => o.push_str(" Y=err StreamNotFound"),
+        Some(y) => {
+            // a field is reported iff the revision has it and its Flags1 bit (if any) is set
+            let mut out = vec![y.ver.to_string()];
+            let fl = y.vals[1] as u32;
+            for (name, since, bit, at, n) in MISC_FIELDS {
+                let valid = y.ver >= since && (bit == 0 || fl & bit != 0);
+                out.push(format!("{}={}", name, if valid { nat_list(&y.vals[at..at + n]) } else { "~".into() }));
+            }
+            let _ = write!(o, " Y={}", out.join(";"));
+        }
+    }
+    match &m.handles {
+        None => o.push_str(" H=err StreamNotFound"),
+        Some(hd) => {
+            let items: Vec<String> = hd
+                .items
+                .iter()
+                .map(|h| {
+                    // only the second kind of descriptor has an object-information chain
+                    let infos: Vec<String> = if hd.v2 { h.infos.iter().map(|(t, s)| format!("{t}:{s}")).collect() } else { vec![] };
+                    format!(
+                        "{},{},{},{},{},{},{},{},{}",
+                        if hd.v2 { 2 } else { 1 },
+                        h.handle,
+                        opt_name_text(&h.type_name),
+                        opt_name_text(&h.object_name),
+                        h.attributes,
+                        h.access,
+                        h.hcount,
+                        h.pcount,
+                        infos.join("/")
+                    )
+                })
+                .collect();
+            let _ = write!(o, " H=[{}]", items.join(";"));
+        }
+    }
+    match &m.maps {
+        // a raw stream of that type without a model of its contents: no claim (the model decoder and the
+        // real reader are still compared on it)
+        None if m.extra.iter().any(|(ty, _)| *ty == 0x47670009) => o.push_str(" L=?"),
+        None => o.push_str(" L=err StreamNotFound"),
+        Some(ms) => {
+            // the entries in file order; the address lookups are C08's subject (overlaps, the final
+            // address taken as inclusive): no claim here
+            let _ = write!(o, " L={}|?", maps_text(ms));
+        }
+    }
+    match &m.crashpad {
+        None => o.push_str(" C=err StreamNotFound"),
+        Some(c) => {
+            // dictionaries are maps by key (byte order = UTF-8 string order), the last duplicate wins;
+            // annotation objects likewise, by name; list annotations and modules keep file order
+            let map = |d: &[(Vec<u8>, Vec<u8>)]| {
+                let mut b = std::collections::BTreeMap::new();
+                for (k, v) in d {
+                    b.insert(k.clone(), v.clone());
+                }
+                b.iter().map(|(k, v)| format!("{}:{}", xs(k), xs(v))).collect::<Vec<_>>().join("/")
+            };
+            let ms: Vec<String> = c
+                .modules
+                .iter()
+                .map(|m| {
+                    let mut b = std::collections::BTreeMap::new();
+                    for a in &m.anns {
+                        let val = match a {
+                            Ann::Invalid(_) => "i".to_string(),
+                            Ann::Str(_, v) => format!("s:{}", xs(v)),
+                            Ann::Other(_, ty, v) if *ty >= 0x8000 => format!("u:{ty}:{v}"),
+                            Ann::Other(_, ty, v) => format!("n:{ty}:{v}"),
+                        };
+                        b.insert(a.name().to_vec(), val);
+                    }
+                    format!(
+                        "{}!{}!{}!{}!{}",
+                        m.index,
+                        m.version,
+                        m.list.iter().map(|s| xs(s)).collect::<Vec<_>>().join("/"),
+                        map(&m.dict),
+                        b.iter().map(|(k, v)| format!("{}={}", xs(k), v)).collect::<Vec<_>>().join("/")
+                    )
+                })
+                .collect();
+            let mut ids = c.report_id.to_vec();
+            ids.extend(c.client_id);
+            let _ = write!(o, " C={},{},{},{}", c.version, dotted(&ids), map(&c.dict), ms.join("+"));
+        }
+    }
     o
 }
 
@@ -1233,6 +2473,11 @@ fn diff_reports(got: &str, exp: &str) -> Vec<(String, Vec<u64>)> {
             if !addrs.is_empty() {
                 bad.push((gk.clone(), addrs));
             }
+        } else if gk == "L" && ev == "?" {
+        } else if gk == "L" && ev.ends_with("|?") {
+            if gv.split('|').next() != ev.split('|').next() {
+                bad.push((gk.clone(), vec![]));
+            }
         } else if gv != ev {
             bad.push((gk.clone(), vec![]));
         }
@@ -1247,6 +2492,13 @@ const CLASS_TOP_UNLOADED: &str = "unloaded-module-at-top-of-address-space-fails-
 
 fn section_of(rep: &str, key: &str) -> Option<String> {
     sections(rep).into_iter().find(|(k, _)| k == key).map(|(_, v)| v)
+}
+
+/// does the model contain a region that extends BEYOND the top of the address space (base + size >
+/// 2^64)? No process has such memory: the model is outside the property's quantifier (and outside
+/// `WellFormed`), the case is counted as `pre-rejected:region-wraps`.
+fn region_wraps(m: &Model) -> bool {
+    m.regions.iter().any(|r| r.base as u128 + r.bytes.data.len() as u128 > 1u128 << 64)
 }
 
 /// does the model contain a region that ends exactly at 2^64?
@@ -1331,6 +2583,12 @@ impl Engine for Roundtrip {
             res.oracle.push(("bad-case".into(), "the case line does not parse".into()));
             return res;
         };
+        if region_wraps(&m) {
+            res.out = "pre-rejected:region-wraps".into();
+            res.tags.push("pre-rejected".into());
+            res.tags.push("pre-rejected:region-wraps".into());
+            return res;
+        }
         let ids = name_ids(&m);
         let mut outs = Vec::new();
         let total: usize = m.regions.iter().map(|r| r.bytes.data.len()).sum();
@@ -1371,7 +2629,7 @@ impl Engine for Roundtrip {
             // report comparison above decides: a raw extra served in its place would be reported
             // instead of the model's items. For any other type the LAST extra of that type is served.
             if let Ok(dump) = Minidump::<&[u8]>::read(&bytes[..]) {
-                let core = |ty: u32| [3u32, 4, 5, 9, 16, 24, 14].contains(&ty) || (ty == 6 && m.exc.is_some()) || (ty == 7 && m.sys.is_some());
+                let core = |ty: u32| [3u32, 4, 5, 9, 16, 24, 14].contains(&ty) || (ty == 6 && m.exc.is_some()) || (ty == 7 && m.sys.is_some()) || (ty == 15 && m.misc.is_some()) || (ty == 12 && m.handles.is_some()) || (ty == 0x47670009 && m.maps.is_some()) || (ty == 0x43500001 && m.crashpad.is_some());
                 let mut seen = Vec::new();
                 for (ty, _) in m.extra.iter() {
                     if core(*ty) || seen.contains(ty) {
@@ -1396,7 +2654,7 @@ impl Engine for Roundtrip {
         // definition the GUID in the dump's byte order, so that field is compared per byte order
         // against `expected_report` above and masked here)
         for (a, b) in [(0usize, 1usize), (2, 3)] {
-            if outs.len() == 4 {
+            if outs.len() >= 4 {
                 let strip = |s: &str| -> String {
                     let s = s.splitn(2, ' ').nth(1).unwrap_or("").to_string();
                     if m.modules.iter().any(|x| matches!(x.cv, Some(Cv::Elf(_)))) {
@@ -1410,6 +2668,10 @@ impl Engine for Roundtrip {
                 }
             }
         }
+        // fifth part: what `same` must know about the model. `raw-L`: a raw LinuxMaps stream without a model
+        // of its contents (outside `WellFormed`): `report m e f` makes no claim about that section.
+        let raw_l = m.maps.is_none() && m.extra.iter().any(|(ty, _)| *ty == 0x47670009);
+        outs.push(if raw_l { "raw-L".to_string() } else { "-".to_string() });
         res.out = outs.join(" ## ");
         res.nontrivial = !m.threads.is_empty() || !m.modules.is_empty() || !m.regions.is_empty();
         res.tags.push(format!("threads:{}", bucket(m.threads.len())));
@@ -1441,11 +2703,64 @@ impl Engine for Roundtrip {
         if top_region(&m) {
             res.tags.push("region-at-top".into());
         }
+        match &m.crashpad {
+            None => res.tags.push("crashpad:none".into()),
+            Some(c) => {
+                res.tags.push(format!("crashpad:modules:{}", bucket(c.modules.len())));
+                res.tags.push(format!("crashpad:dict:{}", bucket(c.dict.len())));
+                res.tags.push(if c.synth_stream(TEndian::Little).is_some() && fnv64(c.text().as_bytes()) & 1 == 0 { "crashpad:by-synth".into() } else { "crashpad:by-hand".into() });
+                for m in &c.modules {
+                    for a in &m.anns {
+                        res.tags.push(match a {
+                            Ann::Invalid(_) => "ann:invalid".to_string(),
+                            Ann::Str(..) => "ann:string".to_string(),
+                            Ann::Other(_, ty, _) if *ty >= 0x8000 => "ann:user".to_string(),
+                            Ann::Other(..) => "ann:unsupported".to_string(),
+                        });
+                    }
+                }
+            }
+        }
+        match &m.maps {
+            None => res.tags.push("maps:none".into()),
+            Some(ms) => {
+                res.tags.push(format!("maps:{}", bucket(ms.len())));
+                for x in ms {
+                    res.tags.push(format!("mappath:{}", x.path.text().chars().next().unwrap_or('?')));
+                }
+            }
+        }
+        match &m.handles {
+            None => res.tags.push("handles:none".into()),
+            Some(h) => {
+                res.tags.push(format!("handles:v{}:{}", if h.v2 { 2 } else { 1 }, bucket(h.items.len())));
+                res.tags.push(format!("handle-infos:{}", bucket(h.items.iter().map(|x| x.infos.len()).max().unwrap_or(0))));
+            }
+        }
+        match &m.misc {
+            None => res.tags.push("misc:none".into()),
+            Some(y) => {
+                res.tags.push(format!("misc:v{}", y.ver));
+                if !y.tail.data.is_empty() {
+                    res.tags.push("misc:tail".into());
+                }
+            }
+        }
         res
+    }
+
+    /// The largest thorough-tier models (dozens of 64 KiB regions x 4 configurations, each file hex-encoded
+    /// to the Lean model and back) take ~25 s on an idle core; on a loaded machine the default 60 s was
+    /// exceeded and reported as `hang` (a false alarm: termination is not this property's claim).
+    fn case_timeout_secs(&self) -> u64 {
+        600
     }
 
     fn model_request(&self, case: &str) -> Option<String> {
         let m = Model::parse(case)?;
+        if region_wraps(&m) {
+            return None;
+        }
         let mut hexes = Vec::new();
         for (be, mem64) in CFGS {
             let bytes = catch(|| build_synth(&m, be, mem64)).ok().flatten()?;
@@ -1459,9 +2774,17 @@ impl Engine for Roundtrip {
     fn same(&self, impl_out: &str, model_out: &str) -> bool {
         let i: Vec<&str> = impl_out.split(" ## ").collect();
         let mo: Vec<&str> = model_out.split(" ## ").collect();
-        if i.len() != 4 || mo.len() != 12 {
+        if i.len() != 5 || mo.len() != 12 {
             return false;
         }
+        let raw_l = i[4] == "raw-L";
+        // drop the L section (see `raw-L`)
+        let mask = |rep: &str| -> String {
+            if !raw_l {
+                return rep.to_string();
+            }
+            sections(rep).into_iter().filter(|(k, _)| k != "L").map(|(k, v)| format!("{k}={v}")).collect::<Vec<_>>().join(" ")
+        };
         // 1. the model decoder agrees with the real reader on the foreign serializer's files
         if (0..4).any(|k| i[k] != mo[k]) {
             return false;
@@ -1485,7 +2808,7 @@ impl Engine for Roundtrip {
                 Ok(r) => r,
                 Err(_) => return false,
             };
-            if real_on_lean != mo[8 + k] {
+            if mask(&real_on_lean) != mask(mo[8 + k]) {
                 return false;
             }
             if real_on_lean != i[k] {
@@ -1519,12 +2842,77 @@ impl Engine for Roundtrip {
         shrink_list!(names);
         shrink_list!(unloaded);
         shrink_list!(extra);
-        for f in 0..4 {
+        if let Some(h) = &m.handles {
+            let mut i = 0;
+            let mut cur = h.clone();
+            while i < cur.items.len() {
+                let mut c = m.clone();
+                let mut hc = cur.clone();
+                hc.items.remove(i);
+                c.handles = Some(hc.clone());
+                if still_fails(&c.line()) {
+                    m = c;
+                    cur = hc;
+                } else {
+                    i += 1;
+                }
+            }
+        }
+        if let Some(ms) = &m.maps {
+            let mut i = 0;
+            let mut cur = ms.clone();
+            while i < cur.len() {
+                let mut c = m.clone();
+                let mut mc = cur.clone();
+                mc.remove(i);
+                c.maps = Some(mc.clone());
+                if still_fails(&c.line()) {
+                    m = c;
+                    cur = mc;
+                } else {
+                    i += 1;
+                }
+            }
+        }
+        if let Some(cp) = &m.crashpad {
+            let mut cur = cp.clone();
+            let mut i = 0;
+            while i < cur.modules.len() {
+                let mut c = m.clone();
+                let mut cc = cur.clone();
+                cc.modules.remove(i);
+                c.crashpad = Some(cc.clone());
+                if still_fails(&c.line()) {
+                    m = c;
+                    cur = cc;
+                } else {
+                    i += 1;
+                }
+            }
+            let mut i = 0;
+            while i < cur.dict.len() {
+                let mut c = m.clone();
+                let mut cc = cur.clone();
+                cc.dict.remove(i);
+                c.crashpad = Some(cc.clone());
+                if still_fails(&c.line()) {
+                    m = c;
+                    cur = cc;
+                } else {
+                    i += 1;
+                }
+            }
+        }
+        for f in 0..8 {
             let mut c = m.clone();
             match f {
                 0 => c.exc = None,
                 1 => c.sys = None,
                 2 => c.pad = false,
+                3 => c.misc = None,
+                4 => c.handles = None,
+                5 => c.maps = None,
+                6 => c.crashpad = None,
                 _ => c.flags = 0,
             }
             if c != m && still_fails(&c.line()) {
@@ -1805,6 +3193,8 @@ fn gen_model(rng: &mut Rng, tier: Tier, k: usize) -> Model {
                 b
             }
         };
+        // a region may end exactly at 2^64 (the known finding), never beyond
+        let base = if len > 0 && base as u128 + len as u128 > 1u128 << 64 { u64::MAX - len + 1 } else { base };
         m.regions.push(Region { base, bytes });
     }
     for _ in 0..count(rng) {
@@ -1844,10 +3234,276 @@ fn gen_model(rng: &mut Rng, tier: Tier, k: usize) -> Model {
             ctx: rand_ctx(rng, be_ctx),
         });
     }
+    // misc info: every revision; flags from consistent to arbitrary; guarded fields filled whatever the flags say
+    if rng.chance(3, 5) {
+        let ver = 1 + rng.below(5) as usize;
+        let w = misc_widths();
+        let canonical = rng.chance(1, 2);
+        let fl: u32 = match rng.below(4) {
+            0 => 0,
+            1 => 0x3f7,
+            2 if !canonical => rand_u32(rng),
+            _ => (rng.next() as u32) & 0x3f7,
+        };
+        // what a writer of that revision would set
+        let known: u32 = [0x7u32, 0x7, 0xf7, 0x1f7, 0x3f7][ver - 1];
+        let fl = if canonical { fl & known } else { fl };
+        let mut vals: Vec<u64> = (0..MISC_COUNTS[ver - 1])
+            .map(|i| {
+                let v = match rng.below(4) {
+                    0 => 0,
+                    1 => u64::MAX,
+                    _ => rng.next() >> rng.below(64),
+                };
+                if w[i] < 8 {
+                    v & ((1u64 << (8 * w[i])) - 1)
+                } else {
+                    v
+                }
+            })
+            .collect();
+        vals[1] = fl as u64;
+        let room = if ver < 5 { MISC_SIZES[ver] - MISC_SIZES[ver - 1] - 1 } else { 64 };
+        let tail_len = match rng.below(4) {
+            0 | 1 => 0,
+            2 => room,
+            _ => rng.below(room as u64 + 1) as usize,
+        };
+        let mut tail = Blob::pat(rng.below(256), tail_len);
+        if canonical {
+            // zero whatever the flags do not vouch for; size_of_info = the stream's length
+            for (_, since, bit, at, n) in MISC_FIELDS {
+                if bit != 0 && fl & bit == 0 && (since as usize) <= ver {
+                    for v in vals[at..at + n].iter_mut() {
+                        *v = 0;
+                    }
+                }
+            }
+            tail = Blob::raw(vec![0; tail_len]);
+            vals[0] = (MISC_SIZES[ver - 1] + tail_len) as u64;
+        }
+        m.misc = Some(Misc { ver: ver as u8, tail, vals });
+    }
+    // Linux maps: every spelling of the path column, addresses anywhere (hi < lo included), all permission sets
+    if rng.chance(1, 2) {
+        let n = count(rng);
+        let mut ms = Vec::new();
+        let mut next: u64 = 0x5555_0000_0000 + rng.below(0x1000) * 0x1000;
+        for _ in 0..n {
+            let len = (1 + rng.below(64)) * 0x1000;
+            let (lo, hi) = match rng.below(8) {
+                0 => (rand_u64(rng), rand_u64(rng)),
+                1 => (u64::MAX - len, u64::MAX),
+                _ => {
+                    let lo = next;
+                    next += len + rng.below(2) * 0x1000;
+                    (lo, lo + len)
+                }
+            };
+            let path = loop {
+                let p = match rng.below(14) {
+                    0 => MapPath::Heap,
+                    1 => MapPath::Stack,
+                    2 => MapPath::TStack(rand_u32(rng)),
+                    3 => MapPath::Vdso,
+                    4 => MapPath::Vvar,
+                    5 => MapPath::Vsyscall,
+                    6 => MapPath::Rollup,
+                    7 | 8 => MapPath::Anonymous,
+                    9 => MapPath::Vsys(rand_u32(rng)),
+                    10 => {
+                        let pool: [&str; 6] = ["anon:dalvik-main space", "anon_inode:[perf_event]", "heap", "stack:", "κόσμε", ""];
+                        let s: &&str = rng.pick(&pool[..]);
+                        MapPath::Other(s.as_bytes().to_vec())
+                    }
+                    _ => {
+                        let pool: [&str; 9] = [
+                            "/usr/lib/x86_64-linux-gnu/libc.so.6",
+                            "/bin/cat",
+                            "/home/u/my file (deleted)",
+                            "/opt/κόσμε/日本語.so",
+                            "/SYS",
+                            "anon_inode:i915.gem",
+                            "/memfd:x\ty (deleted)",
+                            "socket:[12345]x",
+                            "[x",
+                        ];
+                        let s: &&str = rng.pick(&pool[..]);
+                        MapPath::Path(s.as_bytes().to_vec())
+                    }
+                };
+                if p.well_formed() {
+                    break p;
+                }
+            };
+            ms.push(MapEntry {
+                lo,
+                hi,
+                perms: rng.below(32) as u8,
+                offset: if rng.chance(1, 2) { 0 } else { rand_u64(rng) },
+                major: if rng.chance(1, 2) { rng.below(256) as u32 } else { rand_u32(rng) >> 1 },
+                minor: if rng.chance(1, 2) { rng.below(256) as u32 } else { rand_u32(rng) >> 1 },
+                inode: if rng.chance(1, 3) { 0 } else { rand_u64(rng) },
+                path,
+            });
+        }
+        m.maps = Some(ms);
+    }
+    // Crashpad info: dictionaries with duplicate / empty / non-ASCII keys, string lists, annotation objects of
+    // every kind, several modules
+    if rng.chance(1, 2) {
+        let word = |rng: &mut Rng| -> Vec<u8> {
+            let pool: [&str; 12] = ["", "a", "b", "key", "ptype", "ver", "κ", "日本", "x y", "list_annotations", "zz", "A"];
+            if rng.chance(3, 4) {
+                let s: &&str = rng.pick(&pool[..]);
+                s.as_bytes().to_vec()
+            } else {
+                name_string(&rand_name(rng, 10)).into_bytes()
+            }
+        };
+        let dict = |rng: &mut Rng, n: u64| -> Vec<(Vec<u8>, Vec<u8>)> { (0..n).map(|_| (word(rng), word(rng))).collect() };
+        let guid = |rng: &mut Rng| -> [u32; 11] {
+            let mut g = [0u32; 11];
+            if rng.chance(2, 3) {
+                g[0] = rand_u32(rng);
+                g[1] = rng.next() as u16 as u32;
+                g[2] = rng.next() as u16 as u32;
+                for v in g[3..].iter_mut() {
+                    *v = rng.next() as u8 as u32;
+                }
+            }
+            g
+        };
+        let plain = rng.chance(1, 2);
+        let nm = count(rng).min(3);
+        let mut modules = Vec::new();
+        for i in 0..nm {
+            let na = rng.below(5);
+            let anns = (0..na)
+                .map(|_| match rng.below(if plain { 2 } else { 4 }) {
+                    0 => Ann::Invalid(word(rng)),
+                    1 => Ann::Str(word(rng), word(rng)),
+                    // the boundary between "unsupported" and "user defined" (0x8000) is hit often
+                    2 => Ann::Other(word(rng), if rng.chance(1, 2) { *rng.pick(&[0x8000u16, 0x8001, 0xffff]) } else { 0x8000 + rng.below(0x8000) as u16 }, rand_u32(rng)),
+                    _ => Ann::Other(word(rng), if rng.chance(1, 2) { *rng.pick(&[0x7fffu16, 2, 3]) } else { 2 + rng.below(0x7ffe) as u16 }, rand_u32(rng)),
+                })
+                .collect();
+            let nl = rng.below(4);
+            let nd = rng.below(4);
+            modules.push(CpModule {
+                index: if rng.chance(1, 4) { rand_u32(rng) } else { i as u32 },
+                version: if plain || rng.chance(1, 2) { 1 } else { rand_u32(rng) },
+                list: (0..nl).map(|_| word(rng)).collect(),
+                dict: dict(rng, nd),
+                anns,
+            });
+        }
+        let nd = rng.below(5);
+        m.crashpad = Some(Crashpad {
+            version: if plain || rng.chance(1, 2) { 1 } else { rand_u32(rng).max(1) },
+            report_id: guid(rng),
+            client_id: guid(rng),
+            dict: dict(rng, nd),
+            modules,
+        });
+    }
+    // now and then, instead: a raw LinuxMaps stream with lines a writer should not produce (missing
+    // fields, bad numbers, smaps attributes, stray white space, invalid UTF-8) — only the model decoder
+    // vs the real reader is compared on those
+    if m.maps.is_none() && rng.chance(1, 6) {
+        let good = "00400000-0040b000 r-xp 00000000 08:01 1234 /bin/cat";
+        let pool: [&[u8]; 40] = [
+            good.as_bytes(),
+            b"00400000-0040b000 r-xp 00000000 08:01 1234",
+            b"00400000-0040b000 r-xp 00000000 08:01 1234 ",
+            b"00400000-0040b000  r-xp 00000000 08:01 1234 /x",
+            b"",
+            b"\r",
+            b"00400000 r-xp 00000000 08:01 1234 /x",
+            b"00400000-0040b000-77 r-xp 00000000 08:01 1234 /x",
+            b"-0040b000 r-xp 00000000 08:01 1234 /x",
+            b"00400000-1ffffffffffffffff r-xp 00000000 08:01 1234 /x",
+            b"0x400000-0040b000 r-xp 00000000 08:01 1234 /x",
+            b"00400000-0040b000 rwxsp-?R 00000000 08:01 1234 /x",
+            b"00400000-0040b000 r-xp +10 08:01 1234 /x",
+            b"00400000-0040b000 r-xp 10 -8:01 1234 /x",
+            b"00400000-0040b000 r-xp 10 80000000:01 1234 /x",
+            b"00400000-0040b000 r-xp 10 -80000000:-1 1234 /x",
+            b"00400000-0040b000 r-xp 10 -80000001:1 1234 /x",
+            b"00400000-0040b000 r-xp 10 08 1234 /x",
+            b"00400000-0040b000 r-xp 10 08:01:02 1234 /x",
+            b"00400000-0040b000 r-xp 10 08:01 12a4 /x",
+            b"00400000-0040b000 r-xp 10 08:01 18446744073709551616 /x",
+            b"00400000-0040b000 r-xp 10 08:01 1234 [stack:77]",
+            b"00400000-0040b000 r-xp 10 08:01 1234 [stack:77:88]",
+            b"00400000-0040b000 r-xp 10 08:01 1234 [stack:]",
+            b"00400000-0040b000 r-xp 10 08:01 1234 [stack:x]",
+            b"00400000-0040b000 r-xp 10 08:01 1234 [stack:4294967296]",
+            b"00400000-0040b000 r-xp 10 08:01 1234 [stack:",
+            b"00400000-0040b000 r-xp 10 08:01 1234 [stack:7",
+            b"00400000-0040b000 r-xp 10 08:01 1234 [stack:+7]",
+            b"00400000-0040b000 r-xp 10 08:01 1234 /SYSV0000zzzz (deleted)",
+            b"00400000-0040b000 r-xp 10 08:01 1234 /SYSVffffffff",
+            b"00400000-0040b000 r-xp 10 08:01 1234 /SYSV+1234567x",
+            "00400000-0040b000 r-xp 10 08:01 1234 \u{a0}\u{2003}/x y\u{3000}\u{85}".as_bytes(),
+            "00400000-0040b000 r-xp 10 08:01 1234 \u{2028}[heap]\u{1680}".as_bytes(),
+            b"00400000-0040b000 r-xp 10 08:01 1234 \xff\xfe",
+            b"Size:                  4 kB",
+            b"Rss: 18446744073709551615",
+            b"Pss: x kB",
+            b"VmFlags: rd ex mr mw me dw",
+            b"KernelPageSize",
+        ];
+        let mut text = Vec::new();
+        let n = 1 + rng.below(4);
+        for i in 0..n {
+            let l: &&[u8] = if i == 0 && rng.chance(2, 3) { &pool[0] } else { rng.pick(&pool[..]) };
+            text.extend_from_slice(l);
+            match rng.below(6) {
+                0 => text.extend(b"\r\n"),
+                1 if i + 1 == n => {}
+                _ => text.push(b'\n'),
+            }
+        }
+        m.extra.push((0x47670009, Blob::raw(text)));
+    }
+    // handle data: both descriptor kinds, absent / empty / non-BMP names, chains of 0..5 object infos
+    if rng.chance(1, 2) {
+        let v2 = rng.chance(1, 2);
+        let n = count(rng);
+        let mut items = Vec::new();
+        for _ in 0..n {
+            let opt = |rng: &mut Rng| if rng.chance(1, 3) { None } else { Some(rand_name(rng, 16)) };
+            let ninfo = if rng.chance(1, 2) { 0 } else { rng.below(6) };
+            items.push(Handle {
+                handle: rand_u64(rng),
+                type_name: opt(rng),
+                object_name: opt(rng),
+                attributes: rand_u32(rng),
+                access: rand_u32(rng),
+                hcount: rand_u32(rng),
+                pcount: rand_u32(rng),
+                infos: (0..ninfo).map(|_| (rng.below(10) as u32, rand_u32(rng))).collect(),
+            });
+        }
+        m.handles = Some(Handles { v2, items });
+    }
     // duplicate directory entries: raw streams under types that occur again later, and foreign types
     if rng.chance(1, 3) {
         for _ in 0..1 + rng.below(3) {
-            let mut tys = vec![3u32, 4, 16, 24, 14, 0x4767_0001, 0xffff_0000, 15];
+            let mut tys = vec![3u32, 4, 16, 24, 14, 0x4767_0001, 0xffff_0000, 21];
+            if m.misc.is_some() {
+                tys.push(15);
+            }
+            if m.handles.is_some() {
+                tys.push(12);
+            }
+            if m.maps.is_some() {
+                tys.push(0x47670009);
+            }
+            if m.crashpad.is_some() {
+                tys.push(0x43500001);
+            }
             if m.exc.is_some() {
                 tys.push(6);
             }
